@@ -19,7 +19,7 @@ func init() {
 		id:    "C08",
 		title: "Type 1 writer emits conforming files that say what the font says",
 		explanation: "Decides the framing, cipher and template-structure clauses of C08: the PFB branch writes header {128, type, LE32(n)} / data three times with types 1, 2, 1 and the end marker {128, 3}, each length taken from the filled buffer before it is reset and spread little-endian over four bytes; " +
-			"the eexec stream writer and the charstring obfuscator use keys 55665 / 4330 and multipliers 52845 / 22719 with ciphertext feedback (canonical term comparison), four lead bytes; the first eexec ciphertext byte, evaluated as a constant, is neither white space nor a hexadecimal digit; the charstring lead-byte search only accepts a first byte above 32 and a non-hexadecimal byte among the first four (sets evaluated for all bytes); no /lenIV is written, so the default of four applies; " +
+			"the eexec stream writer and the charstring obfuscator use keys 55665 / 4330 and multipliers 52845 / 22719 with ciphertext feedback (the writer is evaluated through Write + Close with a symbolic state and byte and with a concrete sequence across a full buffer, the obfuscator on symbolic and concrete bytes; outputs and state compared with the specification as normal forms over Z/2^16 or for all values), four lead bytes; the first eexec ciphertext byte, evaluated as a constant, is neither white space nor a hexadecimal digit; the charstring lead-byte search only accepts a first byte above 32 and a non-hexadecimal byte among the first four (sets evaluated for all bytes); no /lenIV is written, so the default of four applies; " +
 			"template: required keys (/FontInfo /FontName /Encoding /PaintType /FontType 1 /FontMatrix /FontBBox /Private /CharStrings) present; RD, ND, NP defined with the standard bodies before their first use; every binary string is preceded by `<len of the same value> RD `; `currentfile eexec` ends the clear text exactly when encrypting; the encrypted part ends with `mark currentfile closefile` and the trailer is 8×64 zeros and cleartomark under the same condition; the explicit encoding lists every entry except .notdef; " +
 			"PDF embedding: the first length is read after the clear text and before the cipher lead bytes, the second after the cipher writer was closed, both from the same byte counter. Charstring number and command encodings are C20/C06. " +
 			"It does NOT decide that an independent decoder recovers the same font (that needs a second decoder to run).",
@@ -35,52 +35,8 @@ func runC08(c *Ctx) {
 	// info strings over all byte values: every string reaches the program text escaped
 	c.templateEscaping(nil)
 
-	// ---- eexec writer flush: encryption shape
-	{
-		fd := c.funcDecl("type1", "eexecWriter", "flush")
-		fname := "type1.(*eexecWriter).flush"
-		var loop *ast.ForStmt
-		ast.Inspect(fd.Body, func(n ast.Node) bool {
-			if f, ok := n.(*ast.ForStmt); ok && loop == nil {
-				loop = f
-			}
-			return true
-		})
-		if loop == nil {
-			c.fail("CIPHER-SHAPE", fname, "encryption loop", fd.Pos(), "no loop over the buffered bytes")
-		} else {
-			env := &symEnv{info: info, vars: map[string]string{}}
-			// symbols: the buffer element and the 16-bit state
-			var elem ast.Expr
-			var state ast.Expr
-			ast.Inspect(loop.Body, func(n ast.Node) bool {
-				if as, ok := n.(*ast.AssignStmt); ok && len(as.Lhs) == 1 {
-					switch l := as.Lhs[0].(type) {
-					case *ast.IndexExpr:
-						if elem == nil {
-							elem = l
-						}
-					case *ast.SelectorExpr:
-						if b, ok := info.TypeOf(l).Underlying().(*types.Basic); ok && b.Kind() == types.Uint16 {
-							state = l
-						}
-					}
-				}
-				return true
-			})
-			if elem == nil || state == nil {
-				c.fail("CIPHER-SHAPE", fname, "encryption step", loop.Pos(), "buffer element / state update not found")
-			} else {
-				env.bind(elem, "in")
-				env.bind(state, "r")
-				env.exec(loop.Body.List)
-				ke, _ := env.key(elem)
-				ks, _ := env.key(state)
-				c.check(env.vars[ke] == termOUT, "CIPHER-SHAPE", fname, "cipher = plain ^ (r >> 8)", loop.Pos(), env.vars[ke], "the eexec writer computes the cipher byte as "+env.vars[ke]+", expected "+termOUT)
-				c.check(env.vars[ks] == termRENC, "CIPHER-SHAPE", fname, "r = (cipher + r)*c1 + c2 (cipher byte fed back)", loop.Pos(), env.vars[ks], "the eexec writer updates its state as "+env.vars[ks]+", expected "+termRENC+" (the ciphertext byte must be fed back)")
-			}
-		}
-	}
+	// ---- eexec writer: encryption shape, decided through Write/Close on the evaluator (ext_b.go)
+	c.cipherWriterB()
 	// ---- lead bytes of the eexec stream
 	{
 		fd := c.funcDecl("type1", "", "newEExecWriter")
@@ -108,49 +64,8 @@ func runC08(c *Ctx) {
 		txt := nodeString(c, fd.Body)
 		c.check(strings.Contains(txt, "eexecR0"), "W-LEADBYTES", fname, "cipher state starts at 55665", fd.Pos(), "R: eexecR0", "the eexec writer does not start from the key 55665")
 	}
-	// ---- charstring obfuscation
-	{
-		fd := c.funcDecl("type1", "", "obfuscateCharstring")
-		fname := "type1.obfuscateCharstring"
-		c.charstringKey(fd, info, fname)
-		var rng *ast.RangeStmt
-		ast.Inspect(fd.Body, func(n ast.Node) bool {
-			if r, ok := n.(*ast.RangeStmt); ok && rng == nil {
-				rng = r
-			}
-			return true
-		})
-		if rng != nil {
-			env := &symEnv{info: info, vars: map[string]string{}}
-			env.exec(fd.Body.List)
-			var state *ast.Ident
-			ast.Inspect(fd.Body, func(n ast.Node) bool {
-				if vs, ok := n.(*ast.ValueSpec); ok && len(vs.Values) == 1 {
-					if v, ok := constIntOf(info, vs.Values[0]); ok && v == 4330 {
-						state = vs.Names[0]
-					}
-				}
-				return true
-			})
-			if state != nil {
-				env.bind(state, "r")
-				if id, ok := rng.Value.(*ast.Ident); ok {
-					env.bind(id, "in")
-				}
-				env.exec(rng.Body.List)
-				ks, _ := env.key(state)
-				// what is stored back into the buffer
-				stored := ""
-				for k, v := range env.vars {
-					if strings.Contains(k, "[") {
-						stored = v
-					}
-				}
-				c.check(stored == termOUT, "CIPHER-SHAPE", fname, "cipher = plain ^ (r >> 8)", rng.Pos(), stored, "charstring obfuscation stores "+stored+", expected "+termOUT)
-				c.check(env.vars[ks] == termRENC, "CIPHER-SHAPE", fname, "r = (cipher + r)*c1 + c2 (cipher byte fed back)", rng.Pos(), env.vars[ks], "charstring obfuscation updates its state as "+env.vars[ks]+", expected "+termRENC)
-			}
-		}
-	}
+	// ---- charstring obfuscation: key and shape decided on the evaluator (ext_b.go)
+	c.cipherObfuscateB()
 	// ---- lead-byte search in encodeCharstrings
 	{
 		fd := c.funcDecl("type1", "Font", "encodeCharstrings")
